@@ -126,7 +126,7 @@ fn booked_record(lit: &str) -> String {
     let r = sx::catch(move || {
         let arena = Bump::new();
         let mut ctx = ReportContext::new(&arena);
-        let opts = report::ProcessOptions { price_db_path: None };
+        let opts = { let mut o = report::ProcessOptions::default(); o.price_db_path = None; o };
         let res = report::process(&mut ctx, proc::fake_loader(&files, "/r/main.ledger"), &opts);
         let rec = match res {
             Err(report::ReportError::Load(_)) => "parse-err".to_string(),
@@ -265,7 +265,7 @@ fn pricedb_record(lit: &str) -> String {
     let r = sx::catch(move || {
         let arena = Bump::new();
         let mut ctx = ReportContext::new(&arena);
-        let opts = report::ProcessOptions { price_db_path: Some(p2) };
+        let opts = { let mut o = report::ProcessOptions::default(); o.price_db_path = Some(p2); o };
         let res = report::process(&mut ctx, proc::fake_loader(&files, "/r/main.ledger"), &opts);
         let rec = match res {
             Err(report::ReportError::PriceDB(_)) => "parse-err".to_string(),
